@@ -790,6 +790,10 @@ func (pm *Portmapper) makeReply(xid uint32, status uint32, data []byte) []byte {
 		}
 	} else {
 		binary.Write(&buf, binary.BigEndian, status)
+		if status == PROG_MISMATCH {
+			binary.Write(&buf, binary.BigEndian, uint32(2)) // lowest version supported
+			binary.Write(&buf, binary.BigEndian, uint32(4)) // highest version supported
+		}
 	}
 
 	return buf.Bytes()
